@@ -116,6 +116,19 @@ CHECKS["C07"] = dict(
     note="Trusted: TLC, CPython. Production-size products are cross-validated between independent paths, not recomputed by TLC.",
     technique="TLC trace validation (C->S) against the definitional k-fold sum on toy curves + path-agreement on production curves",
     ref="3/C07")
+CHECKS["C19"] = dict(
+    text="PointObj.tla: a pool of live point/key objects whose VALUE is a scalar of Z_N; every public operation's result is a "
+         "function of values only and leaves every existing object's value unchanged (representation is deliberately absent from "
+         "the spec). TLC checks ValuesNeverChange / EqExact / CopiesFaithful / ArithmeticExact on all histories with 3 objects on Z_7 "
+         "and generates behaviours (-simulate, depth 26-40, pool of 6) over new (scaled/unscaled, with/without order, generator), "
+         "x/y/scale/to_affine/from_affine/double/neg/add/mul/mul_add/==/pickle/key creation/precompute lazy+eager/verify/to_string/"
+         "key ==; S->C: each behaviour is replayed on real objects on toy curves of order 7, 13, 29, 257 comparing every result "
+         "with the specified value, re-denoting EVERY live object from its raw coordinates after each step, and comparing key "
+         "operations with a freshly constructed key of the same value.",
+    note="Trusted: TLC, CPython, harness affine arithmetic used to map a scalar to its point. Histories are simulated (random walks) "
+         "beyond 3 objects, not exhaustive.",
+    technique="TLC model checking of PointObj.tla + replay of TLC-generated behaviours into real objects (S->C)",
+    ref="3/C19")
 NOT_YET = {}
 
 
